@@ -68,6 +68,8 @@ class Tr:
     # ---------- static tests ----------
     def static_test(self, e):
         """True/False when the test is decided by the specialisation, None otherwise."""
+        if ast.dump(e) in self.sig.get('static_true', []):
+            return True
         if isinstance(e, ast.Compare) and len(e.ops) == 1 and isinstance(e.left, ast.Name) \
                 and e.left.id in self.static_none and isinstance(e.comparators[0], ast.Constant) \
                 and e.comparators[0].value is None:
@@ -151,11 +153,11 @@ class Tr:
             env2[g.target.id] = self.sig['elem'][ity]
             inner = []
             b, bty = self.expr(e.elt, env2, inner)
-            if inner:
-                no(e, 'raising operation inside a comprehension')
             lty = [k for k, v in self.sig['elem'].items() if v == bty]
             if not lty:
                 no(e, 'list of %s' % bty)
+            if inner:
+                return self.bind(binds, 'rmap (fun %s =>\n%s) %s' % (g.target.id, self.wrap(inner, 'ROk %s' % b), it)), lty[0]
             return '(map (fun %s => %s) %s)' % (g.target.id, b, it), lty[0]
         if isinstance(e, ast.List):
             if not e.elts:
@@ -167,9 +169,14 @@ class Tr:
             return '[' + '; '.join(t for t, _ in items) + ']', lty[0]
         if isinstance(e, ast.Subscript) and isinstance(e.slice, ast.Slice):
             sl = e.slice
+            extra = []
             def bound(b):
                 if b is None:
                     return ''
+                if isinstance(b, ast.Name):
+                    t, ty = self.expr(b, env, binds)
+                    extra.append(t)
+                    return '@' + ty
                 if isinstance(b, ast.Constant) and type(b.value) is int:
                     return str(b.value)
                 if isinstance(b, ast.UnaryOp) and isinstance(b.op, ast.USub) and isinstance(b.operand, ast.Constant) \
@@ -179,10 +186,21 @@ class Tr:
             if sl.step is not None:
                 no(e, 'slice step')
             v, vty = self.expr(e.value, env, binds)
-            ent = self.sig.get('slices', {}).get('%s[%s:%s]' % (vty, bound(sl.lower), bound(sl.upper)))
+            key = '%s[%s:%s]' % (vty, bound(sl.lower), bound(sl.upper))
+            ent = self.sig.get('slices', {}).get(key)
             if ent is None:
-                no(e, 'slice %s[%s:%s]' % (vty, bound(sl.lower), bound(sl.upper)))
-            return '(%s %s)' % (ent['coq'], v), ent['ret']
+                no(e, 'slice %s' % key)
+            text = '%s %s%s' % (ent['coq'], v, ''.join(' ' + x for x in extra))
+            if ent.get('raises'):
+                return self.bind(binds, text), ent['ret']
+            return '(%s)' % text, ent['ret']
+        if isinstance(e, ast.Subscript) and isinstance(e.slice, ast.UnaryOp) and isinstance(e.slice.op, ast.USub) \
+                and isinstance(e.slice.operand, ast.Constant) and e.slice.operand.value == 1:
+            v, vty = self.expr(e.value, env, binds)
+            ent = self.sig.get('last_index', {}).get(vty)
+            if ent is None:
+                no(e, '%s[-1]' % vty)
+            return self.bind(binds, '%s %s' % (ent['coq'], v)), ent['ret']
         if isinstance(e, ast.Subscript):
             if isinstance(e.value, ast.Attribute) and isinstance(e.value.value, ast.Name) \
                     and e.value.value.id == 'self':
@@ -282,6 +300,8 @@ class Tr:
             for a in e.args:
                 if isinstance(a, ast.Constant) and a.value is None:
                     tys.append('None')
+                elif isinstance(a, ast.Constant) and type(a.value) is int:
+                    tys.append(str(a.value))
                 elif isinstance(a, ast.Constant) and isinstance(a.value, str) and \
                         ('%s.%s' % (rty, f.attr)) in self.sig['const_args']:
                     if a.value not in self.sig['const_args']['%s.%s' % (rty, f.attr)]:
@@ -316,6 +336,12 @@ class Tr:
             if ty not in self.sig['optional']:
                 no(e, 'None test on %s' % ty)
             return ('(opt_is_none %s)' if isinstance(e.ops[0], ast.Is) else '(negb (opt_is_none %s))') % t
+        if isinstance(e, ast.Compare) and len(e.ops) == 1 and isinstance(e.ops[0], ast.Eq):
+            a, ta = self.expr(e.left, env, binds)
+            b, tb = self.expr(e.comparators[0], env, binds)
+            if ta == 'nat' and tb == 'nat':
+                return '(Nat.eqb %s %s)' % (a, b)
+            no(e, '== on %s, %s' % (ta, tb))
         t, ty = self.expr(e, env, binds)
         if ty == 'bool':
             return t
@@ -354,10 +380,20 @@ class Tr:
             if name in self.sig['reserved'] or name in self.static_none:
                 no(s, 'assignment to %s' % name)
             binds = []
+            decl = self.sig.get('declared', {}).get(name)
             if isinstance(s.value, ast.Constant) and s.value.value is False and name in self.sig.get('false_as_none', {}):
                 t, ty = 'None', self.sig['false_as_none'][name]
+            elif isinstance(s.value, ast.Constant) and s.value.value is None and decl in self.sig['optional']:
+                t, ty = 'None', decl
+            elif isinstance(s.value, ast.List) and not s.value.elts and decl in self.sig.get('empty_list', {}):
+                t, ty = self.sig['empty_list'][decl], decl
             else:
                 t, ty = self.expr(s.value, env, binds)
+            if decl is not None and ty != decl:
+                co = self.sig.get('coerce', {}).get('%s->%s' % (ty, decl))
+                if co is None:
+                    no(s, '%s assigned a value of type %s' % (name, ty))
+                t, ty = '(%s %s)' % (co, t), decl
             if name in env and env[name] != ty:
                 co = self.sig.get('coerce', {}).get('%s->%s' % (ty, env[name]))
                 if co is None:
@@ -615,6 +651,8 @@ def translate(sigpath, repo):
     for p in sig['params']:
         if p['name'] not in sig['static_none'] and not p.get('omit'):
             env[p['name']] = p['type']
+    for n, t in sig.get('region_in', []):
+        env[n] = t
     stmts = strip_doc(list(fn.body))
     if 'region' in sig:
         # only the statements region[0] .. region[1] are translated; all the others are pinned by AST hash
@@ -633,8 +671,8 @@ def translate(sigpath, repo):
     else:
         body = tr.block(stmts, env, lambda e: no(fn, 'the method can end without a return'))
     if tr.pruned != sig['pruned']:
-        raise Unsupported('a branch for %s not None changed (AST hashes %s, signature file has %s)'
-                          % ('/'.join(sig['static_none']), tr.pruned, sig['pruned']))
+        raise Unsupported('a branch decided at translation time (%s) changed (AST hashes %s, signature file has %s)'
+                          % ('/'.join(sig['static_none'] + ['static_true'] * bool(sig.get('static_true'))), tr.pruned, sig['pruned']))
     params = ''.join(' (%s : %s)' % (n, tr.coqty(t)) for n, t in env.items() if n not in sig['section_vars'])
     out = ['(* GENERATED by tools/py2v_tsv from %s (%s.%s) - do not edit; tools/regen_tsv.sh rewrites it.'
            % (sig['source'], sig['class'], sig['method']),
